@@ -174,7 +174,10 @@ def gen_scenario(rng, i):
                     rule['match'] = 'contains("%s")' % rng.choice(words)
         if rng.random() < 0.25 or i % 8 == 1:
             # where the report goes is a setting: next to the budget, below config/, below data/ (all accepted by `tally up`)
-            b['output_dir'] = rng.choice(['.', 'config/reports', 'data/reports', 'reports', 'output/html'])
+            outs = ['.', 'config/reports', 'data/reports', 'reports', 'output/html']
+            b['output_dir'] = rng.choice(outs)
+            if i % 8 == 1:
+                b['output_dir'] = outs[(i // 8) % len(outs)]     # the stratified slot walks through them in order
         files = bm.render_budget(b, rng)
         yes = rng.random() < 0.6
         if yes:
